@@ -381,10 +381,14 @@ fn content_for(w: usize, len: usize) -> Vec<u8> {
 type OpResult = Result<(), String>;
 
 fn write_task(fs: &Arc<FileSystem>, kind: Write, content: Vec<u8>, upload_id: Option<String>) -> Task<OpResult> {
+    write_task_at(fs, kind, content, upload_id, "bkt", "k")
+}
+
+fn write_task_at(fs: &Arc<FileSystem>, kind: Write, content: Vec<u8>, upload_id: Option<String>, bucket: &'static str, key: &'static str) -> Task<OpResult> {
     let fs = fs.clone();
     Box::pin(async move {
         match kind {
-            Write::Put { frames, .. } => fs.put_object(req(PutObjectInput { bucket: "bkt".into(), key: "k".into(), body: Some(blob_of(&content, frames)), content_length: Some(content.len() as i64), ..gb() }, None)).await.map(|_| ()).map_err(|e| e.code().as_str().to_owned()),
+            Write::Put { frames, .. } => fs.put_object(req(PutObjectInput { bucket: bucket.into(), key: key.into(), body: Some(blob_of(&content, frames)), content_length: Some(content.len() as i64), ..gb() }, None)).await.map(|_| ()).map_err(|e| e.code().as_str().to_owned()),
             Write::PutWithChecksum => {
                 let crc = b64(&crc32fast::hash(&content).to_be_bytes());
                 fs.put_object(req(PutObjectInput { bucket: "bkt".into(), key: "k".into(), body: Some(blob_of(&content, 2)), content_length: Some(content.len() as i64), checksum_crc32: Some(crc), metadata: Some([("m".to_owned(), "new".to_owned())].into_iter().collect()), ..gb() }, None)).await.map(|_| ()).map_err(|e| e.code().as_str().to_owned())
@@ -549,7 +553,9 @@ fn part_bc(acc: &mut Acc, tier: Tier) {
 
 #[derive(Clone, Debug)]
 enum Actor {
-    Writer(usize, usize), // (id, len)
+    Writer(usize, usize), // (id, len) -> bkt/k
+    /// (id, len, bucket, key): a writer to another object (whose temporary files must never meet the others')
+    WriterAt(usize, usize, &'static str, &'static str),
     Reader,
 }
 
@@ -561,6 +567,8 @@ struct Exec {
     reader_saw: Option<Result<Vec<u8>, String>>,
     tmps: Vec<String>,
     writer_results: Vec<String>,
+    /// for every WriterAt: what a later read of its own object returns
+    other_reads: Vec<(usize, Result<Vec<u8>, String>)>,
 }
 
 fn reader_task(fs: &Arc<FileSystem>) -> Task<Result<Vec<u8>, String>> {
@@ -581,6 +589,10 @@ fn execute(sched: &Sched, actors: &[Actor], prefix: &[usize]) -> Exec {
     for a in actors {
         match a {
             Actor::Writer(id, len) => writers.push(Some(write_task(&st.fs, Write::Put { frames: 2, len: *len }, content_for(*id, *len), None))),
+            Actor::WriterAt(id, len, bucket, key) => {
+                std::fs::create_dir_all(st.root.join(bucket)).unwrap();
+                writers.push(Some(write_task_at(&st.fs, Write::Put { frames: 2, len: *len }, content_for(*id, *len), None, bucket, key)));
+            }
             Actor::Reader => {
                 reader = Some(reader_task(&st.fs));
                 writers.push(None);
@@ -621,7 +633,7 @@ fn execute(sched: &Sched, actors: &[Actor], prefix: &[usize]) -> Exec {
         let t = enabled[choice];
         current = Some(t);
         match &actors[t] {
-            Actor::Writer(..) => {
+            Actor::Writer(..) | Actor::WriterAt(..) => {
                 if let Poll::Ready(r) = sched.step(writers[t].as_mut().unwrap()) {
                     running[t] = false;
                     writer_results[t] = format!("{r:?}");
@@ -641,10 +653,26 @@ fn execute(sched: &Sched, actors: &[Actor], prefix: &[usize]) -> Exec {
     }
     let tmps = tmp_files(&st.root);
     let final_read = later_read_with(&st.fs, Some(sched));
-    Exec { schedule, points, final_read, reader_saw, tmps, writer_results }
+    let mut other_reads = Vec::new();
+    for (t, a) in actors.iter().enumerate() {
+        if let Actor::WriterAt(_, _, bucket, key) = a {
+            let fs = st.fs.clone();
+            let r = sched.block_on(async move {
+                match fs.get_object(req(GetObjectInput { bucket: (*bucket).into(), key: (*key).into(), ..gb() }, None)).await {
+                    Ok(r) => read_body(r.output.body).await,
+                    Err(e) => Err(e.code().as_str().to_owned()),
+                }
+            });
+            other_reads.push((t, r));
+        }
+    }
+    Exec { schedule, points, final_read, reader_saw, tmps, writer_results, other_reads }
 }
 
-fn explore(sched: &Sched, a: &mut Acc, name: &str, actors: &[Actor], bound: usize, prefix: Vec<usize>, first_only: Option<usize>, counter: &mut u64) {
+/// `spill`: (list, level) - subtrees rooted `level` decisions below the root are not explored here but handed out (their
+/// roots are executed by whoever takes them), so that one exploration tree can be spread over the worker threads
+fn explore(sched: &Sched, a: &mut Acc, name: &str, actors: &[Actor], bound: usize, prefix: Vec<usize>, mut spill: Option<(&mut Vec<Vec<usize>>, usize)>, counter: &mut u64) {
+    let prop = PROP.with(std::cell::Cell::get);
     let x = execute(sched, actors, &prefix);
     *counter += 1;
     a.eval();
@@ -656,18 +684,30 @@ fn explore(sched: &Sched, a: &mut Acc, name: &str, actors: &[Actor], bound: usiz
     let cand_refs: Vec<&[u8]> = candidates.iter().map(Vec::as_slice).collect();
     let ctxv = json!({"actors": format!("{actors:?}"), "schedule": x.schedule, "writer_results": x.writer_results});
     let order = x.schedule.iter().filter(|c| **c != 0).count() as u64 * 1000 + x.schedule.len() as u64;
+    // writers to other objects: each object holds its own writer's bytes, whatever the interleaving
+    for (t, read) in &x.other_reads {
+        let Actor::WriterAt(id, len, bucket, key) = &actors[*t] else { continue };
+        if read.as_ref().ok() == Some(&content_for(*id, *len)) {
+            a.outcome("each object holds its own writer's bytes");
+        } else {
+            a.outcome("AN OBJECT DOES NOT HOLD ITS OWN WRITER'S BYTES");
+            a.fail(&format!("{prop}/schedules/write-to-one-object-changed-or-lost-by-a-concurrent-write-to-another/{name}"), order, sid.clone(), format!("after both writers finished {bucket}/{key} reads {:?} (its writer sent {} bytes; results {:?})", read.as_ref().map(|b| (b.len(), String::from_utf8_lossy(&b[..b.len().min(16)]).into_owned())), len, x.writer_results), ctxv.clone());
+        }
+    }
+    let only_others = !actors.iter().any(|ac| matches!(ac, Actor::Writer(..)));
     match &x.final_read {
+        Ok(b) if only_others && b == OLD => a.outcome("the untouched object keeps its content"),
         Ok(b) if cand_refs.iter().any(|c| c == b) => a.outcome(&format!("final content = writer {}", cand_refs.iter().position(|c| c == b).unwrap())),
         other => {
             a.outcome("FINAL CONTENT IS NO WRITER'S");
-            a.fail(&format!("C19/schedules/final-content-is-no-writers-bytes/{name}"), order, sid.clone(), format!("after all writers finished the object is {:?}", other.as_ref().map(|b| (b.len(), String::from_utf8_lossy(&b[..b.len().min(16)]).into_owned()))), ctxv.clone());
+            a.fail(&format!("{prop}/schedules/final-content-is-no-writers-bytes/{name}"), order, sid.clone(), format!("after all writers finished the object is {:?}", other.as_ref().map(|b| (b.len(), String::from_utf8_lossy(&b[..b.len().min(16)]).into_owned()))), ctxv.clone());
         }
     }
     if !x.tmps.is_empty() {
-        a.fail("C19/schedules/temporary-file-left-behind", order, sid.clone(), format!("{:?}", x.tmps), ctxv.clone());
+        a.fail(&format!("{prop}/schedules/temporary-file-left-behind"), order, sid.clone(), format!("{:?}", x.tmps), ctxv.clone());
     }
     if x.writer_results.iter().any(|r| r.contains("Err")) {
-        a.fail(&format!("C19/schedules/concurrent-writer-fails/{name}"), order, sid.clone(), format!("writer results {:?}", x.writer_results), ctxv.clone());
+        a.fail(&format!("{prop}/schedules/concurrent-writer-fails/{name}"), order, sid.clone(), format!("writer results {:?}", x.writer_results), ctxv.clone());
     }
     if let Some(seen) = &x.reader_saw {
         let versions: Vec<&[u8]> = std::iter::once(OLD).chain(cand_refs.iter().copied()).collect();
@@ -675,7 +715,7 @@ fn explore(sched: &Sched, a: &mut Acc, name: &str, actors: &[Actor], bound: usiz
             Ok(b) if versions.iter().any(|v| v == b) => a.outcome("reader saw one complete version"),
             other => {
                 a.outcome("READER SAW NO COMPLETE VERSION");
-                a.fail(&format!("C19/schedules/reader-saw-no-complete-version/{name}"), order, sid.clone(), format!("the concurrent reader received {:?}", other.as_ref().map(|b| (b.len(), String::from_utf8_lossy(&b[..b.len().min(16)]).into_owned()))), ctxv.clone());
+                a.fail(&format!("{prop}/schedules/reader-saw-no-complete-version/{name}"), order, sid.clone(), format!("the concurrent reader received {:?}", other.as_ref().map(|b| (b.len(), String::from_utf8_lossy(&b[..b.len().min(16)]).into_owned()))), ctxv.clone());
             }
         }
     }
@@ -684,12 +724,6 @@ fn explore(sched: &Sched, a: &mut Acc, name: &str, actors: &[Actor], bound: usiz
     }
     // branch: alternatives at every later point within the preemption bound
     for i in prefix.len()..x.points.len() {
-        if let Some(f) = first_only {
-            // this worker owns the subtree whose first decision is `f`
-            if i == 0 && prefix.is_empty() {
-                let _ = f;
-            }
-        }
         let p = &x.points[i];
         // preemptions so far: a switch away from a still-enabled current task
         let mut cost = 0;
@@ -711,19 +745,53 @@ fn explore(sched: &Sched, a: &mut Acc, name: &str, actors: &[Actor], bound: usiz
             }
             let mut np: Vec<usize> = x.schedule[..i].to_vec();
             np.push(alt);
-            explore(sched, a, name, actors, bound, np, None, counter);
+            match spill.as_mut() {
+                Some((list, 1)) => list.push(np),
+                Some((list, level)) => {
+                    let l = *level - 1;
+                    explore(sched, a, name, actors, bound, np, Some((&mut **list, l)), counter);
+                }
+                None => explore(sched, a, name, actors, bound, np, None, counter),
+            }
         }
     }
 }
 
+thread_local! {
+    /// the property under which schedule findings are reported (C17 borrows the cross-object configurations)
+    static PROP: std::cell::Cell<&'static str> = const { std::cell::Cell::new("C19") };
+}
+
+fn cross_object_configs() -> Vec<(&'static str, Vec<Actor>, usize)> {
+    vec![
+        ("same-key-in-two-buckets", vec![Actor::WriterAt(1, 10, "bkt", "data.bin"), Actor::WriterAt(2, 9000, "bkt2", "data.bin")], usize::MAX),
+        ("same-file-name-in-two-directories", vec![Actor::WriterAt(1, 10, "bkt", "d1/data.bin"), Actor::WriterAt(2, 9000, "bkt", "d2/data.bin")], usize::MAX),
+        ("different-keys-in-one-bucket", vec![Actor::WriterAt(1, 10, "bkt", "k1"), Actor::WriterAt(2, 9000, "bkt", "k2")], usize::MAX),
+    ]
+}
+
+/// C17's concurrent part: all interleavings of two writers to different objects (other bucket, other directory, other key)
+pub fn cross_object_schedules(acc: &mut Acc, prop: &'static str) -> u64 {
+    let before = acc.evals;
+    run_configs(acc, &cross_object_configs(), prop);
+    acc.evals - before
+}
+
 fn part_d(acc: &mut Acc, tier: Tier) {
-    let configs: Vec<(&str, Vec<Actor>, usize)> = vec![
+    let mut configs: Vec<(&str, Vec<Actor>, usize)> = vec![
         ("two-writers", vec![Actor::Writer(1, 10), Actor::Writer(2, 9000)], usize::MAX),
         ("writer-and-reader", vec![Actor::Writer(1, 9000), Actor::Reader], usize::MAX),
-        ("two-writers-and-reader", vec![Actor::Writer(1, 10), Actor::Writer(2, 9000), Actor::Reader], tier.pick(1, 2)),
-        ("three-writers", vec![Actor::Writer(1, 10), Actor::Writer(2, 9000), Actor::Writer(3, 20_000)], tier.pick(1, 2)),
+        ("two-writers-and-reader", vec![Actor::Writer(1, 10), Actor::Writer(2, 9000), Actor::Reader], tier.pick(2, 3)),
+        ("three-writers", vec![Actor::Writer(1, 10), Actor::Writer(2, 9000), Actor::Writer(3, 20_000)], tier.pick(2, 3)),
     ];
-    par_items(acc, &configs, |a, _ci, (name, actors, bound)| {
+    configs.extend(cross_object_configs());
+    run_configs(acc, &configs, "C19");
+}
+
+fn run_configs(acc: &mut Acc, configs: &[(&'static str, Vec<Actor>, usize)], prop: &'static str) {
+    PROP.with(|p| p.set(prop));
+    for (name, actors, bound) in configs {
+        let a = &mut *acc;
         if a.replay_filter.is_some() {
             // replay: the schedule digits are the choice sequence
             let f = a.replay_filter.clone().unwrap();
@@ -736,7 +804,7 @@ fn part_d(acc: &mut Acc, tier: Tier) {
             explore(&sched, a, name, actors, 0, prefix, None, &mut counter);
             a.replay_hits += 1;
             a.replay_filter = Some(f);
-            return;
+            continue;
         }
         let sched = Sched::new();
         // determinism self-check: the default schedule twice
@@ -745,10 +813,21 @@ fn part_d(acc: &mut Acc, tier: Tier) {
         if x1.schedule.len() != x2.schedule.len() || x1.final_read != x2.final_read {
             machinery_failure(&format!("C19: schedule exploration of {name} is not deterministic"));
         }
+        // the top two levels of the exploration tree here, the subtrees below them spread over the workers
         let mut counter = 0;
-        explore(&sched, a, name, actors, *bound, vec![], None, &mut counter);
+        let mut subtrees: Vec<Vec<usize>> = Vec::new();
+        explore(&sched, a, name, actors, *bound, vec![], Some((&mut subtrees, 2)), &mut counter);
         a.count(&format!("schedules_of_{name}"), counter);
-    });
+        drop(sched);
+        par_items(a, &subtrees, |a2, _i, prefix| {
+            PROP.with(|p| p.set(prop));
+            let sched = Sched::new();
+            let mut counter = 0;
+            explore(&sched, a2, name, actors, *bound, prefix.clone(), None, &mut counter);
+            a2.count(&format!("schedules_of_{name}"), counter);
+        });
+    }
+    PROP.with(|p| p.set("C19"));
 }
 
 pub fn run(ctx: &Ctx) -> (Acc, Report) {
@@ -766,7 +845,7 @@ pub fn run(ctx: &Ctx) -> (Acc, Report) {
     }
     let rep = Report {
         level: "fault_enumeration",
-        rule: format!("(a) PutObject through S3Service::call with s3s-fs behind it: body I/O error after k of n frames for n in {{1,2,4}}, k in 0..n; wrong and right checksum for CRC32, CRC32C, SHA-1, SHA-256; corrupted signature in chunk k of a 1-, 2-, 3-chunk chunk-signed body (incl. the final chunk); each with the key absent and present; writes whose final rename / directory step fails (a directory where the object should go, a file where a directory is needed). (b) every abandon point: the request future dropped after every step p, both while the submitted file-system call is still queued and after it has completed; (c) every crash point: the tree copied after every step and restarted with FileSystem::new; for writes {:?}. (d) all interleavings at file-system-call granularity of two writers (10 B vs 9000 B) and of writer + reader; two writers + reader and three writers with at most {} preemption(s). Oracle: a later read returns the previous state or one complete version - content and user metadata of the same version -, the reader receives one complete version, the final content is one writer's bytes, no .tmp.* file remains. Distinct by id.", if ctx.tier == Tier::Thorough { "put x4, put+checksum+metadata, copy-object, complete-multipart (5 MiB + 4 B)" } else { "put x3 sizes/framings, put+checksum+metadata, copy-object (content + metadata)" }, ctx.tier.pick(1, 2)),
+        rule: format!("(a) PutObject through S3Service::call with s3s-fs behind it: body I/O error after k of n frames for n in {{1,2,4}}, k in 0..n; wrong and right checksum for CRC32, CRC32C, SHA-1, SHA-256; corrupted signature in chunk k of a 1-, 2-, 3-chunk chunk-signed body (incl. the final chunk); each with the key absent and present; writes whose final rename / directory step fails (a directory where the object should go, a file where a directory is needed). (b) every abandon point: the request future dropped after every step p, both while the submitted file-system call is still queued and after it has completed; (c) every crash point: the tree copied after every step and restarted with FileSystem::new; for writes {:?}. (d) all interleavings at file-system-call granularity of two writers (10 B vs 9000 B) and of writer + reader; two writers + reader and three writers with at most {} preemption(s); all interleavings of two writers to different objects (same key in two buckets, same file name in two directories, two keys). Oracle: a later read returns the previous state or one complete version - content and user metadata of the same version -, the reader receives one complete version, the final content is one writer's bytes, no .tmp.* file remains. Distinct by id.", if ctx.tier == Tier::Thorough { "put x4, put+checksum+metadata, copy-object, complete-multipart (5 MiB + 4 B)" } else { "put x3 sizes/framings, put+checksum+metadata, copy-object (content + metadata)" }, ctx.tier.pick(2, 3)),
         exhaustive: true,
         extra: json!({"granularity": "one step = one task runs from one file-system await to the next (tokio blocking pool of one thread, gated)"}),
         assumptions: vec![
